@@ -2,6 +2,7 @@ import AscentVerif.Model.Sexp
 import AscentVerif.Model.Engine
 import AscentVerif.Model.StdInterp
 import AscentVerif.Model.Hir
+import AscentVerif.Model.EnginePhys
 namespace AscentVerif.Driver
 open AscentVerif AscentVerif.Std AscentVerif.Engine
 
@@ -188,6 +189,20 @@ def doRun (s : EngStore) (inst : String) : Option (EngStore × String) := do
     | .timedOut _ => some (s, "timedout?")
     | .outOfFuel => some (s, "nofuel")
 
+/-- `run()` through the physical-index engine model (`Model/EnginePhys.lean`): relational, aggregation-free programs only -/
+def doRunPhys (s : EngStore) (inst : String) : Option (EngStore × String) := do
+    let i ← (s.insts.find? (·.1 == inst)).map (·.2)
+    let p := i.pd.prog
+    if p.rels.any (·.lat) || p.rules.any (fun r => r.body.any fun | .agg _ => true | _ => false) then some (s, "na")
+    else
+      let ix := Phys.ixSetsOf stdVars p
+      let s0 : Phys.PSt := (List.range i.st.length).map fun r => { rows := (relSt i.st r).rows, full := [], idxs := [] }
+      match Phys.run (interp (kindOf i.pd)) stdVars p ix i.pd.order defaultFuel s0 with
+      | some ps =>
+        let st : St := ps.st.map fun pr => { rows := pr.rows, idx := List.range pr.rows.length }
+        some ({ s with insts := (inst, { i with st := st, iters := ps.iters }) :: s.insts.filter (·.1 != inst) }, "ok")
+      | none => some (s, "nofuel")
+
 def handleEng (s : EngStore) : List Sexp → Option (EngStore × String)
   | [.atom "prog", .atom id, p] => do
     let pd ← parseProg p
@@ -231,6 +246,7 @@ def handleEng (s : EngStore) : List Sexp → Option (EngStore × String)
       | .outOfFuel => some (s, "nofuel")
     else none
   | [.atom "run", .atom inst] => doRun s inst
+  | [.atom "runp", .atom inst] => doRunPhys s inst
   | [.atom "dump", .atom inst] => do
     let i ← (s.insts.find? (·.1 == inst)).map (·.2)
     some (s, dumpSt i.st)
